@@ -531,6 +531,15 @@ func checkC04(sc *Scenario, st *Stats) *Violation {
 		// same control flow, and no value that differs between the two runs (i.e. that
 		// derives from the GAS instruction) reaches anything but the gas argument of a call
 		sameFlow := flowOf(br.Rec.Evs) == flowOf(disc.Rec.Evs) && flowOf(br.Rec.Evs) == flowOf(off.Rec.Evs)
+		for i := range br.Rec.Evs {
+			// "succeeding Aspects" is the premise: one that runs out of the little gas a
+			// frame has left fails the frame, as it must
+			if e := &br.Rec.Evs[i]; e.K == EvAspectExit && e.Err != "" {
+				sameFlow = false
+				st.Label("metamorphic-aspects-skipped(aspect-failed)")
+				break
+			}
+		}
 		if sameFlow && gasReachesData(sc.Fork, br.Rec.Evs, off.Rec.Evs) {
 			sameFlow = false
 			st.Label("metamorphic-aspects-skipped(gas-is-data)")
